@@ -713,7 +713,7 @@ pub fn run_check(meta: CheckMeta, seed: u64, tier: Tier, replay: Option<&str>) -
     let mut broken = false;
 
     for part in &meta.parts {
-        if replay.is_some() && part.sanitizer.is_some() {
+        if part.sanitizer.is_some() && (replay.is_some() || std::env::var("QV_NO_SANITIZERS").is_ok()) {
             continue;
         }
         if let Some(prep) = &part.prepare {
